@@ -35,13 +35,14 @@ def gen_params(rng, max_epochs):
     p["num_epochs"] = rng.choice([None, None, max_epochs, max(1, max_epochs - rng.randrange(0, 3)), max_epochs + 2])
     p["log10_learning_rate"] = rng.choice([None, None, 0, -2])
     p["early_stopping_threshold"] = rng.choice(THRESHOLDS)
-    p["early_stopping_patience"] = rng.choice([1, 1, 2, 3, 4])
-    p["early_stopping_burnin"] = rng.choice([0, 0, 1, 2, 3])
+    # two-digit values exercise the zero-padded countdown columns of the history file
+    p["early_stopping_patience"] = rng.choice([1, 1, 2, 3, 4, 10])
+    p["early_stopping_burnin"] = rng.choice([0, 0, 1, 2, 3, 10])
     p["reduce_lr_threshold"] = rng.choice(THRESHOLDS)
     p["reduce_lr_factor"] = rng.choice(FACTORS)
-    p["reduce_lr_patience"] = rng.choice([1, 1, 2, 3])
-    p["reduce_lr_cooldown"] = rng.choice([0, 0, 1, 2, 3])
-    p["reduce_lr_burnin"] = rng.choice([0, 0, 1, 2])
+    p["reduce_lr_patience"] = rng.choice([1, 1, 2, 3, 11])
+    p["reduce_lr_cooldown"] = rng.choice([0, 0, 1, 2, 3, 10])
+    p["reduce_lr_burnin"] = rng.choice([0, 0, 1, 2, 12])
     p["reduce_lr_log10_epsilon"] = rng.choice([-8, -8, -1, -2])
     return p
 
